@@ -59,6 +59,12 @@ Fixpoint mem_str (x : str) (l : list str) : bool :=
   | y :: r => str_eqb x y || mem_str x r
   end.
 
+Fixpoint nodup_str (l : list str) : list str :=
+  match l with
+  | [] => []
+  | x :: r => x :: filter (fun y => negb (str_eqb x y)) (nodup_str r)
+  end.
+
 (* Python  x.split(c)  for a single separator character: never empty *)
 Fixpoint split_on (c : char) (x : str) : list str :=
   match x with
